@@ -392,6 +392,7 @@ package gldap
 //@   shapes WithResponseCode WithDiagnosticMessage WithMatchedDN
 //@   requires reqOK(r)
 //@   ensures  result != nil && fresh(result) && result.GeneralResponse != nil && result.GeneralResponse.baseResponse != nil && result.GeneralResponse.messageID == msgID(r.message) && result.GeneralResponse.applicationCode == ApplicationModifyResponse
+//@   ensures  fresh(result.GeneralResponse) && fresh(result.GeneralResponse.baseResponse)
 //@   ensures  result.GeneralResponse.code == int16(cond(has_WithResponseCode, arg_WithResponseCode, ResultUnwillingToPerform))
 //@   ensures  result.GeneralResponse.diagMessage == cond(has_WithDiagnosticMessage, arg_WithDiagnosticMessage, "Unused") && result.GeneralResponse.matchedDN == cond(has_WithMatchedDN, arg_WithMatchedDN, "Unused")
 //@   panics false
@@ -485,13 +486,15 @@ package gldap
 //@   tags C19
 //@ pure attrPaired(e *EntryAttribute) bool = len(e.Values) == len(e.ByteValues) && forall(j, 0, len(e.Values), bytestr(e.ByteValues[j]) == e.Values[j])
 //@ func (*gldap.EntryAttribute).AddValue
-//@   requires e != nil && attrPaired(e)
-//@   ensures  attrPaired(e) && len(e.Values) == old(len(e.Values)) + len(value) && e.Name == old(e.Name)
+//@   requires e != nil
+//@   ensures  (old(attrPaired(e)) ==> attrPaired(e)) && len(e.Values) == old(len(e.Values)) + len(value) && e.Name == old(e.Name)
+//@   ensures[C20] forall(j, 0, old(len(e.Values)), e.Values[j] == old(e.Values[j]))
 //@   panics false
 //@   modifies EntryAttribute.Values, EntryAttribute.ByteValues, cell(string), cell([]byte)
 //@   tags C16 C20
 //@ loop 1
-//@   invariant len(e.Values) == old(len(e.Values)) + rangeindex + 1 && attrPaired(e)
+//@   invariant len(e.Values) == old(len(e.Values)) + rangeindex + 1 && (old(attrPaired(e)) ==> attrPaired(e))
+//@   invariant forall(j, 0, old(len(e.Values)), e.Values[j] == old(e.Values[j]))
 //@   modifies EntryAttribute.Values, EntryAttribute.ByteValues, cell(string), cell([]byte), cell(uint8)@none
 //@ func gldap.NewEntry
 //@   ensures  result != nil && fresh(result) && result.DN == dn
